@@ -218,6 +218,12 @@ class Ctx:
         self.engine = engine
         self.repo = engine.repo
         self.cfg = engine.cfg
+        if isinstance(decisions, tuple):
+            decisions, forced = decisions
+        else:
+            forced = [False] * len(decisions)
+        self.forced = list(forced)
+        self.real_forks = 0
         self.decisions = list(decisions)
         self.pos = 0
         self.pc = []
@@ -274,6 +280,8 @@ class Ctx:
         r = self.solver.check()
         self.solver.pop()
         self.engine.stats['branch_s'] = self.engine.stats.get('branch_s', 0.0) + (_t.time() - t0)
+        if os.environ.get('PYVC_SLOW') and _t.time() - t0 > 0.5:
+            print('[slow-branch]', round(_t.time() - t0, 2), r, ' '.join(str(cond).split())[:300], 'pc', len(self.pc), flush=True)
         if r == z3.unknown:
             self.engine.stats['branch_unknown'] = self.engine.stats.get('branch_unknown', 0) + 1
         return r != z3.unsat
@@ -303,12 +311,15 @@ class Ctx:
         k = self.pos
         if k < len(self.decisions):
             d = self.decisions[k]
+            forced = self.forced[k] if k < len(self.forced) else False
         else:
             t_ok = self.feasible(cond)
             f_ok = self.feasible(z3.Not(cond))
+            forced = True
             if t_ok and f_ok:
-                self.engine.worklist.append(self.decisions[:k] + [False])
+                self.engine.worklist.append((self.decisions[:k] + [False], self.forced[:k] + [False]))
                 d = True
+                forced = False
             elif t_ok:
                 d = True
             elif f_ok:
@@ -316,12 +327,28 @@ class Ctx:
             else:
                 raise PathEnd('infeasible')
             self.decisions.append(d)
+            self.forced.append(forced)
+        if not forced:
+            self.real_forks += 1
         self.pos += 1
         self.assume(cond if d else z3.Not(cond))
         return d
 
     def choice(self, tag='choice'):
-        return self.branch(self.fresh(tag, Bool))
+        """a free two-way choice (both sides are feasible by construction: no solver call)"""
+        cond = self.fresh(tag, Bool)
+        k = self.pos
+        if k < len(self.decisions):
+            d = self.decisions[k]
+        else:
+            self.engine.worklist.append((self.decisions[:k] + [False], self.forced[:k] + [False]))
+            d = True
+            self.decisions.append(d)
+            self.forced.append(False)
+        self.real_forks += 1
+        self.pos += 1
+        self.assume(cond if d else z3.Not(cond))
+        return d
 
     def oblige(self, name, goal, **meta):
         """Record a proof obligation pc => goal, then assume it."""
@@ -404,7 +431,7 @@ class Ctx:
         if z3.is_app(t) and t.decl().kind() == z3.Z3_OP_DT_CONSTRUCTOR and t.decl().name() in ('VList', 'VDict'):
             kind = 'l' if t.decl().name() == 'VList' else 'd'
             ref = z3.simplify(t.arg(0))
-            self.owned = [(k, r) for k, r in self.owned if not (k == kind and r.eq(ref))]
+            self.owned = [o for o in self.owned if not (o[0] == kind and o[1].eq(ref))]
         # any other term is a value loaded from the heap, an input or a callee result: by the ownership argument
         # (an unescaped temporary is not stored anywhere and was allocated after every input) it cannot denote an
         # owned temporary
@@ -421,8 +448,10 @@ class Ctx:
         if not self.owned:
             return new
         r = z3.Int('r!own')
-        isl = z3.Or([r == ref for k, ref in self.owned if k == 'l']) if any(k == 'l' for k, _ in self.owned) else z3.BoolVal(False)
-        isd = z3.Or([r == ref for k, ref in self.owned if k == 'd']) if any(k == 'd' for k, _ in self.owned) else z3.BoolVal(False)
+        def cond(kind):
+            alts = [(r == o[1]) if len(o) < 3 else z3.And(r == o[1], o[2]) for o in self.owned if o[0] == kind]
+            return z3.Or(alts) if alts else z3.BoolVal(False)
+        isl, isd = cond('l'), cond('d')
 
         def m(cond, o, n):
             return z3.Lambda([r], z3.If(cond, z3.Select(o, r), z3.Select(n, r)))
@@ -1037,6 +1066,10 @@ class Interp:
         if module is None:
             return make_exc(name, args)
         exc = make_exc(name, args)
+        model = self.ctx.cfg.hooks.get('class:' + name)
+        if model is not None:
+            model(self, exc, args, kwargs)
+            return exc
         cnode = self.repo.modules[module].classes[name]
         init = None
         for n in cnode.body:
